@@ -90,3 +90,61 @@ Definition r_range_verify (rp : rparams K) (ps : list (list Z)) (c e : Z) : list
   [b2z (range_verify rp (map mk_sp ps) (fq c) (fq e))].
 Definition r_validate (rp : rparams K) : list Z := [b2z (validate rp)].
 Definition r_digits (value : Z) : list Z := digits value.
+
+(** zkAbacus proofs *)
+From ZK Require Import Model.Abacus Model.Amount.
+Definition CLOSEZ : Z := 0x45534f4c43000000000000000000000000000000000000000000000000000000.
+Definition closeK : K := fq CLOSEZ.
+Definition enc_atom (a : atom K) : list Z :=
+  match a with
+  | A1 x => [1; v x] | A2 x => [2; v x] | AS x => [3; v x]
+  | AB bs => 4 :: Z.of_nat (length bs) :: bs
+  end.
+Definition enc_atoms (l : list (atom K)) : list Z := flat_map enc_atom l.
+
+Definition mk_cpl (t : list Z) : cproof K :=
+  match t with C :: T :: rbf :: rs => mk_cp C T rbf rs | _ => mk_cp 0 0 0 [] end.
+Definition mk_ep (ks sp csp : list Z) : eproof K :=
+  match ks with
+  | [a; b; c; d] => mkEP (fq a) (fq b) (fq c) (fq d) (mk_cpl sp) (mk_cpl csp)
+  | _ => mkEP (fq 0) (fq 0) (fq 0) (fq 0) (mk_cpl sp) (mk_cpl csp)
+  end.
+Definition vep (p : eproof K) : list Z :=
+  [v (e_kcid p); v (e_kclose p); v (e_kcb p); v (e_kmb p)] ++ vcp (e_sp p) ++ vcp (e_csp p).
+
+Definition r_establish_verify (pk : pkey K) (cid cb mb : Z) (ks sp csp : list Z) (c : Z) : list Z :=
+  match establish_verify_with closeK pk (fq cid) (fq cb) (fq mb) (mk_ep ks sp csp) (fq c) with
+  | Some (a, b) => [1; v a; v b] | None => [0]
+  end.
+Definition r_establish_prove (pk : pkey K) (cid nonce lock cb mb bfs kbfs : Z) (ks : list Z)
+           (bfc kbfc kclose c : Z) : list Z :=
+  vep (establish_prove_with closeK pk (fq cid) (fq nonce) (fq lock) (fq cb) (fq mb) (fq bfs) (fq kbfs)
+                            (fqs ks) (fq bfc) (fq kbfc) (fq kclose) (fq c)).
+Definition r_establish_transcript (pk : pkey K) (cid cb mb : Z) (ks sp csp : list Z) (ctx : list Z) : list Z :=
+  enc_atoms (establish_transcript closeK pk (fq cid) (fq cb) (fq mb) (mk_ep ks sp csp) ctx).
+
+Definition mk_pp (knonce kclose : Z) (tok rev sp csp : list Z) (cr mr : list (list Z)) : pproof K :=
+  mkPP (fq knonce) (fq kclose) (mk_sp tok) (mk_cpl rev) (mk_cpl sp) (mk_cpl csp) (map mk_sp cr) (map mk_sp mr).
+Definition vpp (p : pproof K) : list Z :=
+  [v (p_knonce p); v (p_kclose p)] ++ vsp (p_tok p) ++ vcp (p_rev p) ++ vcp (p_sp p) ++ vcp (p_csp p)
+  ++ flat_map vsp (p_crange p) ++ flat_map vsp (p_mrange p).
+
+Definition r_pay_verify (pk : pkey K) (rp : rparams K) (hr gr nonce amount : Z) (p : pproof K) (c : Z) : list Z :=
+  match pay_verify_with closeK pk rp (fq hr) (fq gr) (fq nonce) (amount_scalar amount) p (fq c) with
+  | Some (a, b, r) => [1; v a; v b; v r] | None => [0]
+  end.
+Definition r_pay_transcript (pk : pkey K) (rp : rparams K) (nonce : Z) (p : pproof K) (ctx : list Z) : list Z :=
+  enc_atoms (pay_transcript closeK pk rp (fq nonce) p ctx).
+
+Definition mk_pd (dsc dsm : list (Z * Z * Z * Z)) (t : list Z) : pdraws K :=
+  match t with
+  | [bfr; kbfr; krev; bft; kbft; kcid; knonce; rt; bfs; kbfs; knn; klock; bfc; kbfc; kclose] =>
+      mkPD (map mk_rd dsc) (map mk_rd dsm) (fq bfr) (fq kbfr) (fq krev) (fq bft) (fq kbft) (fq kcid) (fq knonce)
+           (fq rt) (fq bfs) (fq kbfs) (fq knn) (fq klock) (fq bfc) (fq kbfc) (fq kclose)
+  | _ => mkPD [] [] (fq 0) (fq 0) (fq 0) (fq 0) (fq 0) (fq 0) (fq 0) (fq 0) (fq 0) (fq 0) (fq 0) (fq 0) (fq 0) (fq 0) (fq 0)
+  end.
+Definition r_pay_prove (pk : pkey K) (rp : rparams K) (hr gr : Z) (t1 t2 : Z) (old : list Z) (cbz mbz : Z)
+           (new : list Z) (d : pdraws K) (c : Z) : list Z :=
+  match pay_prove_with closeK pk rp (fq hr) (fq gr) (sig t1 t2) (fqs old) cbz mbz (fqs new) d (fq c) with
+  | Some p => 1 :: vpp p | None => [0]
+  end.
